@@ -275,16 +275,38 @@ func emitBind(out *Out, r *Rng, s *verifySetup, c2 *ACred, cl *core.Claim, kind,
 					k := 0
 					alone[name] = runVerify(v, verifiable.BJJSignatureProofType, resolverCfg{mode: "unpublished"}.resolver(&k), reg, c2.loader()) == nil
 				}
-				for _, ord := range []string{"FG", "GF"} {
+				// a proof of the other type in front or in between plays no part; the model (Verify.verifyList) is told, per
+				// proof, whether the credential is bound to its claim and whether it verifies over it
+				smt := &verifiable.CommonProof{"type": "Ed25519Signature2020", "proofValue": "z" + fmt.Sprint(r.Intn(1000000))}
+				fj := J{"type": "BJJSignature2021", "bound": true, "valid": false}
+				gj := J{"type": "BJJSignature2021", "bound": false, "valid": true}
+				sj := J{"type": "Ed25519Signature2020", "bound": false, "valid": false}
+				for _, ord := range []string{"FG", "GF", "SFG", "GSF", "F", "G", "S"} {
 					v, _ := c2.W3C()
-					v.Proof = verifiable.CredentialProofs{f, g}
-					if ord == "GF" {
-						v.Proof = verifiable.CredentialProofs{g, f}
+					var pj []any
+					for _, ch := range ord {
+						switch ch {
+						case 'F':
+							v.Proof = append(v.Proof, f)
+							pj = append(pj, fj)
+						case 'G':
+							v.Proof = append(v.Proof, g)
+							pj = append(pj, gj)
+						case 'S':
+							if smt != nil {
+								v.Proof = append(v.Proof, smt)
+								pj = append(pj, sj)
+							}
+						}
 					}
 					k := 0
-					if e := runVerify(v, verifiable.BJJSignatureProofType, resolverCfg{mode: "unpublished"}.resolver(&k), reg, c2.loader()); e == nil && !alone["F"] && !alone["G"] {
-						why = append(why, fmt.Sprintf("the changed credential (%s) is accepted with the proof list %s although neither proof alone is accepted: the claim compared with the credential is not the claim that was proven", name, ord))
+					e := runVerify(v, verifiable.BJJSignatureProofType, resolverCfg{mode: "unpublished"}.resolver(&k), reg, c2.loader())
+					var w2 []string
+					if e == nil && !alone["F"] && !alone["G"] {
+						w2 = append(w2, fmt.Sprintf("the changed credential (%s) is accepted with the proof list %s although neither proof alone is accepted: the claim compared with the credential is not the claim that was proven", name, ord))
 					}
+					out.Emit(Case{Op: "verify.list", In: J{"wanted": "BJJSignature2021", "proofs": pj, "order": ord, "mutation": kind + ":" + name}, Impl: classify(e), Prop: propOf(w2),
+						Tags: []string{"proof-list", "order:" + ord}, NT: true})
 				}
 			}
 		}
